@@ -516,8 +516,11 @@ def run_scenario(chk, tool, model, rng, root, idx, stats):
             rc, out, lg = B.run(['check'])
             stats['commands'] += 1
             stats['dropped_split_cases'] += 1
-            accepted = rc == 0
+            refused = rc != 0 and 'misses used file' in out       # refusal while reading the content file
+            accepted = not refused
             want_accept = all(x == 0 for x in recorded[l][keep:])  # the rule itself (independent of the model)
+            if accepted and want_accept and rc != 0:
+                viol('drop_l%d_k%d' % (l, keep), 'check fails (rc=%d) after dropping only unused splits of level %d (recorded %s): %s' % (rc, l, recorded[l], out[-200:]))
             if accepted != want_accept:
                 viol('drop_l%d_k%d' % (l, keep), 'configuration with only %d of the splits of level %d (recorded sizes %s) was %s' %
                      (keep, l, recorded[l], 'accepted' if accepted else 'refused: ' + out[-200:]))
